@@ -12,6 +12,11 @@
 //	    XY.ParseXOnlyPubkey, Signature.RecoverPublicKey, IsLowS, Bytes) and compares with the row's verdict.
 //	    For a signer transition it replays the path on btc.EcdsaSign (both nonce modes), secp256k1.SchnorrSign,
 //	    Signature.Sign and compares with the promise and with the reference signer.
+//	sigcheck txsign -n N -seed N -workers N
+//	    Tx.Sign / Tx.SignWitness over at least N seeded transactions (more until every r / s length class is reached).
+//	sigcheck stress -in <rows> -seed N -inst K -workers G -rounds R -procs P
+//	    concurrency stage: the representatives of the rows are built once, then G goroutines call the real code on
+//	    them concurrently; every answer must be the table's verdict (also run under the race build).
 //	sigcheck sweep -n N -seed N -workers N
 //	    public-key derivation / recovery sweeps over arithmetic progressions of scalars, compared with the
 //	    reference (which only needs one point addition per element).
@@ -226,6 +231,8 @@ func main() {
 	flips := fs.Int("flips", 64, "bit flips per base triple (0 = every bit)")
 	fs.BoolVar(&trustSpec, "trustspec", false, "binding self-test only: do not cross-check the row's verdict with the reference")
 	only := fs.Int("only", -1, "replay: only this instance number (for replaying one saved failure)")
+	rounds := fs.Int("rounds", 20, "stress: rounds over all cases per goroutine")
+	procs := fs.String("procs", "", "stress: comma-separated GOMAXPROCS settings, run one after the other (empty = default)")
 	fs.Parse(os.Args[2:])
 	out := vio.NewOut()
 	defer out.Flush()
@@ -234,6 +241,10 @@ func main() {
 		selftest(out)
 	case "replay":
 		replay(out, *in, *seed, *inst, *only, *workers)
+	case "txsign":
+		txsign(out, *seed, *n, *workers)
+	case "stress":
+		stress(out, *in, *seed, *inst, *workers, *rounds, *procs)
 	case "sweep":
 		sweep(out, *seed, *n, *workers)
 	case "mutate":
